@@ -457,6 +457,7 @@ func checkC17(x *X, c c17Case) error {
 	flag(info.InlineTuples > 0, "inline_tuple")
 	flag(info.Views > 0, "views_present_not_compared")
 	flag(info.ParamLocTags > 0, "param_with_tags")
+	flag(info.ParamMultiTags > 0, "param_with_two_or_more_tags")
 	for _, r := range c17Relations {
 		if len(res.Want[r]) > 0 {
 			x.Class("rows_" + r)
